@@ -1,4 +1,5 @@
 PROP = dict(
+    cover_pkgs=["pdu"],
     gen=["layouts"],
     proof_files=["Properties/C13.v", "Proofs/PduStableProofs.v", "Proofs/PduRoundtripProofs.v"],
     model_files=["Model/Pdu.v", "Model/PduRun.v"],
